@@ -76,8 +76,10 @@ def decode(data: bytes) -> dict:
             prog["steps"].append({"op": "agen", "how": d.pick(["aclose", "aclose", "exhaust", "throw"])})
         elif r < 60:
             prog["steps"].append({"op": "cancel", "k": d.i(0, 5), "which": d.pick(["waiting", "inbody", "any"])})
-        elif r < 68:
+        elif r < 66:
             prog["steps"].append({"op": "joiner"})
+        elif r < 68:
+            prog["steps"].append({"op": "cancel_joiner", "k": d.i(0, 3)})
         elif r < 82:
             prog["steps"].append({"op": "gate", "k": d.i(0, 5)})
         elif r < 95:
@@ -287,6 +289,10 @@ class QRun:
         if self.teardown:
             return
         for j in self.joiners:
+            if j["task"].done() and j["task"].cancelled() and not j.get("cancel_requested"):
+                self.fail("join/waiter-cancelled-by-somebody-else", f"puts {self.puts} exits {self.exits}")
+            if j.get("cancel_requested"):
+                continue
             if j["started"] and j["zero_seen"] and not j.get("done") and not j["task"].done():
                 self.fail("join/not-released-although-all-processed", f"puts {self.puts} exits {self.exits}")
             if j["task"].done() and not j["task"].cancelled() and j["task"].exception() is not None:
@@ -360,6 +366,16 @@ class QRun:
                 rec = {"started": False, "zero_seen": False}
                 rec["task"] = asyncio.ensure_future(self.joiner(rec))
                 self.joiners.append(rec)
+            elif op == "cancel_joiner":
+                # somebody who waits in join() gives up: nobody else's business
+                live_j = [j for j in self.joiners if not j["task"].done()]
+                if live_j:
+                    j = live_j[st_["k"] % len(live_j)]
+                    j["cancel_requested"] = True
+                    j["task"].cancel()
+                    self.labels.add("joiner-cancelled")
+                    if len(live_j) >= 2:
+                        self.labels.add("joiner-cancelled-while-another-waits")
             elif op == "gate":
                 live = [f for f in self.waiters if not f.done()]
                 if live:
